@@ -90,11 +90,16 @@ Definition finalise_core (c : core) : core :=
   {| accts := finalise_accts (accts c); refund := 0; logs := []; logsize := logsize c;
      al_addrs := ∅; al_slots := ∅ |}.
 
-Fixpoint find_snap (id : Z) (l : list (Z * core)) (before : list (Z * core)) : option (core * list (Z * core)) :=
+(* sort.Search over the live revisions (ids are increasing): index and saved state *)
+Fixpoint find_snap (id : Z) (l : list (Z * core)) (i : nat) : option (nat * core) :=
   match l with
   | [] => None
-  | (i, c) :: rest => if i =? id then Some (c, before) else find_snap id rest (before ++ [(i, c)])
+  | (j, c) :: rest => if j =? id then Some (i, c) else if id <? j then None else find_snap id rest (S i)
   end.
+
+(* storage maps are kept canonical: a zero word is an absent key *)
+Definition cset (k : key) (v : Z) (m : gmap key Z) : gmap key Z :=
+  if v =? 0 then delete k m else <[k := v]> m.
 
 Definition flat_logs (l : list (N * N * Z)) : list Z :=
   flat_map (fun '(a, t, i) => [Z.of_N a; Z.of_N t; i]) l.
@@ -122,7 +127,7 @@ Definition spec_step (s : sstate) (o : op) : out * sstate :=
   | GetRefund => (OZ (refund c), s)
   | GetCommittedState x k => (OZ (match m !! x with Some a => sget (comm a) k | None => 0 end), s)
   | GetState x k => (OZ (match m !! x with Some a => sget (stor a) k | None => 0 end), s)
-  | SetState x k v => (OUnit, with_cur s (upd_acct c x (fun a => with_stor a (<[k := v]> (stor a)))))
+  | SetState x k v => (OUnit, with_cur s (upd_acct c x (fun a => with_stor a (cset k v (stor a)))))
   | Suicide x =>
       match m !! x with
       | None => (OBool false, s)
@@ -144,8 +149,8 @@ Definition spec_step (s : sstate) (o : op) : out * sstate :=
   | Snapshot =>
       (OZ (nextid s), {| cur := c; snaps := snaps s ++ [(nextid s, c)]; nextid := nextid s + 1 |})
   | RevertToSnapshot id =>
-      match find_snap id (snaps s) [] with
-      | Some (c', before) => (OUnit, {| cur := c'; snaps := before; nextid := nextid s |})
+      match find_snap id (snaps s) 0 with
+      | Some (i, c') => (OUnit, {| cur := c'; snaps := take i (snaps s); nextid := nextid s |})
       | None => (OPanic, s)
       end
   | AddLog x t =>
